@@ -117,7 +117,10 @@ LOCS = ['a/foo', 'a/foobar', 'a/foo/bar', 'a/foo/bar/baz', 'a/fo', 'a/b',
         'A/foo', 'a/Foo', 'x', 'a/foo+bar', '..cache', '...', 'a/..foo/x',
         'a/.hidden', 'a/b..c', '..a/b', 'a/...', '. /x', 'a/caf\u00e9',
         '\u00fc/x', 'a/\u4e2d\u6587', 'a/k=v/notes', 'a/x=1.log', 'a/p&q',
-        'a/1+1', 'a/x,y', 'a/u@h:p', ]
+        'a/1+1', 'a/x,y', 'a/u@h:p',
+        # names that hold what LOOKS like an escape (decoded exactly once)
+        'a/my%20notes.txt', 'a%2Fb/c', 'a/%41', 'a/100%', 'a/%25', 'a/%2e%2e',
+        'a/data.', 'a/v1..', ]
 
 
 def gen_nested_case(rng, index, tier):
